@@ -154,8 +154,24 @@ func (c *ctx) closureFacts() *leanFile {
 			if p, ok := t.(*types.Pointer); ok {
 				t = p.Elem()
 			}
-			if nt, ok := t.(*types.Named); ok && nt.Obj().Pkg() == c.pkg && mutators[nt.Obj().Name()+"."+sel.Sel.Name] {
-				writes = append(writes, closureWrite{name, id.Name + "." + sel.Sel.Name + "()"})
+			if nt, ok := t.(*types.Named); ok {
+				if nt.Obj().Pkg() == c.pkg {
+					if mutators[nt.Obj().Name()+"."+sel.Sel.Name] {
+						writes = append(writes, closureWrite{name, id.Name + "." + sel.Sel.Name + "()"})
+					}
+				} else if _, isStruct := nt.Underlying().(*types.Struct); isStruct {
+					// a struct type of another package (sync.Map, strings.Builder, …): a method with a pointer
+					// receiver may mutate it; we cannot look inside, so it counts as a write
+					if m, _, _ := types.LookupFieldOrMethod(types.NewPointer(nt), true, nt.Obj().Pkg(), sel.Sel.Name); m != nil {
+						if fn, ok := m.(*types.Func); ok {
+							if sig, ok := fn.Type().(*types.Signature); ok && sig.Recv() != nil {
+								if _, ptr := sig.Recv().Type().(*types.Pointer); ptr {
+									writes = append(writes, closureWrite{name, id.Name + "." + sel.Sel.Name + "()"})
+								}
+							}
+						}
+					}
+				}
 			}
 			return true
 		})
